@@ -214,6 +214,25 @@ def micro_c10_scenario(r) -> Dict[str, Any]:
             sc["actions"][k].insert(0, {"op": "set_cond", "symbol": sym, "cond": base_c})
             for kk in keys[len(keys) // 2:]:
                 sc["actions"][kk].insert(1, {"op": "loan", "symbol": sym, "amount": _s(D(r.randint(1, 9))), "boundary": True})
+    if r.random() < 0.35:
+        # a scheduled job borrows at exactly the time of a bar (jobs run before that instant's events: the valuation
+        # uses the previous close), then the handler of that bar borrows again at the same instant, after the price moved
+        for key in list(sc["actions"])[:: max(1, len(sc["actions"]) // 4)]:
+            if any(a.get("boundary") for a in sc["actions"][key]):
+                sc["jobs"].append({"t": int(key.split("@")[1]), "half": False,
+                                   "action": {"op": "loan", "symbol": r.choice(syms), "amount": "1", "boundary": False}})
+    if "BTC" in sc["symbols"] and ["USD", "BTC"] not in sc["pairs"] and r.random() < 0.2:
+        # the market is also quoted the other way round (USD/BTC) by a feed that stops early at a different price: the
+        # direct pair is the one conversions use
+        bl = sc["bars"].get("BTC/USD")
+        if bl:
+            bp_ = sc["symbols"]["BTC"]
+            rows = []
+            for row in bl[:2]:
+                px = max(q(D(1) / (D(row[4]) * 2), bp_), unit(bp_))
+                rows.append([row[0], _s(px), _s(px), _s(px), _s(px), "1000"])
+            sc["pairs"].append(["USD", "BTC"])
+            sc["bars"]["USD/BTC"] = rows
     if kind == "zero_equity":
         # first action: borrow, so that the only asset equals the debt; then try to borrow much more
         first = sorted(sc["actions"], key=lambda k: int(k.split("@")[1]))[:1]
